@@ -38,6 +38,11 @@ Sensitivity (quick tier, seed 1, scratch copy of /repo/tornado; all caught):
      (found by independent mutation testing; missed because the sweep had no foreign type with a .decode method)
      caught at every seed by the finite "types" part -> C21.utf8_rejects_other_types (to_unicode / native_str /
      to_basestring / _unicode given bytearray(b"abc") return 'abc'; also the duck-typed _HasDecode object).
+  M11 parse_qs_bytes(bytes) served from an lru_cache'd helper with a shallow dict copy (value lists shared between
+     callers; round-9 "state carried over" mutant, missed because every parse result was only read)
+     caught at seeds 1,2,3 -> C21.query_exact_after_caller_mutated_earlier_result.  Generally: every parser-like helper
+     (parse_qs_bytes, json_decode, recursive_unicode) is now called, its result mutated in place by the harness
+     (scramble()), and called again with the identical and with an equal-but-not-identical input; json_encode twice.
   Equivalent (not caught, cannot be): url_unescape text branch always using unquote_plus -- url_escape never
   emits a raw '+' when plus=False, so the round-trip law the statement gives cannot tell the two apart.
 """
@@ -132,6 +137,30 @@ bytes_s = st.one_of(
 UNRESERVED = set("ABCDEFGHIJKLMNOPQRSTUVWXYZabcdefghijklmnopqrstuvwxyz0123456789-._~")
 HEXD = set("0123456789ABCDEFabcdef")
 ENTITIES = ("&amp;", "&lt;", "&gt;", "&quot;", "&#x27;")
+
+
+def scramble(obj):
+    """What callers do with a result they were handed: mutate it in place, recursively (lists get elements
+    inserted/appended, dicts get a key added and one removed).  A later call must not see any of it."""
+    if isinstance(obj, list):
+        for x in obj:
+            scramble(x)
+        obj.append(b"INJECTED-BY-CALLER")
+        obj.insert(0, "INJECTED-BY-CALLER")
+    elif isinstance(obj, dict):
+        for x in list(obj.values()):
+            scramble(x)
+        if obj:
+            del obj[next(iter(obj))]
+        obj["INJECTED-BY-CALLER"] = [b"x"]
+    return obj
+
+
+def fresh_equal(x):
+    """An equal but not identical str/bytes object (defeats identity-keyed memoisation, keeps equality-keyed)."""
+    if isinstance(x, bytes):
+        return bytes(bytearray(x))
+    return "".join(list(x)) if x else x
 
 
 def no_raise(part):
@@ -345,6 +374,16 @@ def run_json(ctx, case):
     backb = escape.json_decode(out.encode("utf-8"))
     if not strict_eq(backb, v):
         ctx.fail("C21.json_roundtrip", {"value": v, "encoded": out, "decoded": backb, "arg": "bytes"})
+    # reuse: the caller mutates the decoded structures, then the same document is decoded / the same value encoded again
+    scramble(back)
+    scramble(backb)
+    for doc in (out, fresh_equal(out), out.encode("utf-8")):
+        again = escape.json_decode(doc)
+        if not strict_eq(again, v):
+            ctx.fail("C21.json_roundtrip_after_caller_mutated_earlier_result", {"value": v, "encoded": out, "decoded": again})
+        scramble(again)
+    if escape.json_encode(v) != out:
+        ctx.fail("C21.json_encode_not_repeatable", {"value": v, "first": out, "second": escape.json_encode(v)})
     acc = {"depth": 0, "close": False, "lt_or_slash": False, "nonascii": False, "float": False}
     _json_features(v, acc)
     labels = {"json"}
@@ -540,6 +579,18 @@ def run_utf8(ctx, case):
         got = escape.recursive_unicode(src)
         if not same_shape(got, exp):
             ctx.fail("C21.recursive_unicode", {"input": repr(src), "got": repr(got), "want": repr(exp)})
+        # reuse: the caller mutates the converted copy; the source must be untouched and converting it (or an
+        # equal structure) again gives the same answer
+        scramble(got)
+        src2 = build_tree(x)[0]
+        if repr(src) != repr(src2):
+            ctx.fail("C21.recursive_unicode_mutated_its_input", {"input": repr(src2), "after": repr(src)})
+        for again_src in (src, src2):
+            again = escape.recursive_unicode(again_src)
+            if not same_shape(again, exp):
+                ctx.fail("C21.recursive_unicode_after_caller_mutated_earlier_result",
+                         {"input": repr(src2), "got": repr(again), "want": repr(exp)})
+            scramble(again)
         if depth >= 2:
             labels.add("tree_nested")
         if has_bytes:
@@ -653,6 +704,20 @@ def run_query(ctx, case):
         got2 = escape.parse_qs_bytes(arg)
         if got2 != expected_nonblank:
             ctx.fail("C21.query_exact_drop_blank", {"query": qs_bytes, "form": form, "got": got2, "want": expected_nonblank})
+        # reuse: the caller extends what it was handed (handlers merge arguments into these lists), then the
+        # same query string arrives again; each parse is judged against the query string alone
+        scramble(got)
+        scramble(got2)
+        for arg2 in (arg, fresh_equal(arg)):
+            again = escape.parse_qs_bytes(arg2, keep_blank_values=True)
+            if again != expected:
+                ctx.fail("C21.query_exact_after_caller_mutated_earlier_result",
+                         {"query": qs_bytes, "form": form, "got": again, "want": expected})
+            again2 = escape.parse_qs_bytes(arg2)
+            if again2 != expected_nonblank:
+                ctx.fail("C21.query_exact_after_caller_mutated_earlier_result",
+                         {"query": qs_bytes, "form": form, "got": again2, "want": expected_nonblank, "keep_blank_values": False})
+            scramble(again)
     nontrivial = bool(feats & {"raw_high_byte", "pct_high_byte", "pct_reserved", "raw_percent_invalid_seq", "plus_space"})
     ctx.note(case, feats | {"query"}, nontrivial)
 
